@@ -18,7 +18,8 @@ EXTENDS Integers, Sequences, FiniteSets, TLC, SequencesExt
 CONSTANTS DevNoticeInSpan,     \* open finding C06: a notice line inside a retained match's line span is not reported
           DevClampShift,       \* open finding C07: fuseRanges clamps negative offsets only at the start of the input
           DevC11HyphenToken,   \* open finding C11: a token ending in "-" that ends a line of Normalize's output is re-joined
-          DevC11CleanedNotice  \* open finding C11: the cleaned words of a line read as a copyright notice
+          DevC11CleanedNotice, \* open finding C11: the cleaned words of a line read as a copyright notice
+          DevLineTouchSplit    \* open finding C06: the retain loop's "start line = end line" exception depends on where lines break
 
 VARIABLES corpus,   \* classifier -> set of keys
           last,     \* input id -> result record of the most recent Match/MatchFrom on it
@@ -227,8 +228,22 @@ ClampSig(e) ==
   IN /\ C # {} /\ \A x \in D \ C : \E y \in C : ~(x.el < y.sl \/ y.el < x.sl)
      /\ C \cap B = {} \/ C \cap A # {}     \* the recorded finding: a clamped document is matched alone but not behind other text
 
+(* C06 as built: the retain loop keeps a partially overlapping lower-confidence match only when it starts on the very
+   line the retained match ends on (Scan: c.sl # o.el).  Splitting a word of that line moves the end of both matches
+   one line down and the exception no longer applies: the match is lost.  Nothing else may differ. *)
+LineTouchSig(e) ==
+  LET a == NonCopy(last[e.a].ms)  b == NonCopy(last[e.b].ms)
+      Key(m) == [k |-> m.k, cb |-> m.cb, st |-> m.st, et |-> m.et]
+      B == {Key(b[i]) : i \in 1..Len(b)}
+      lost == {i \in 1..Len(a) : Key(a[i]) \notin B}
+  IN /\ e.split > 0 /\ lost # {} /\ Len(b) + Cardinality(lost) = Len(a)
+     /\ \A i \in 1..Len(b) : \E j \in 1..Len(a) : Key(a[j]) = Key(b[i])
+     /\ \A i \in lost : /\ a[i].sl = e.split /\ a[i].el = e.split
+                          /\ \E j \in 1..Len(a) : j \notin lost /\ a[j].sl < e.split /\ a[j].el = e.split /\ a[j].r >= a[i].r
+
 PairOK(e) ==
   \/ PairCore(e)
+  \/ DevLineTouchSplit /\ e.kind = "hyphen-split" /\ LineTouchSig(e) /\ PrintT(<<"DEV", "DevLineTouchSplit", e.a, e.b>>)
   \/ DevClampShift /\ e.kind = "shift" /\ ClampSig(e) /\ PrintT(<<"DEV", "DevClampShift", e.a, e.b>>)
   \/ DevC11HyphenToken /\ e.alignclass = "token-ends-in-hyphen" /\ PrintT(<<"DEV", "DevC11HyphenToken", e.a, e.b>>)
   \/ DevC11CleanedNotice /\ e.alignclass = "cleaned-line-is-notice" /\ PrintT(<<"DEV", "DevC11CleanedNotice", e.a, e.b>>)
